@@ -83,6 +83,7 @@ fn shapes_block<T: Real + Elem>(ctx: &mut Ctx, lens: &[usize], guard: bool) {
         }
     }
     ctx.flush_calls = guard;
+    ctx.chunk_events = !guard && lens[0] % 4 == 1;
     for &n in lens {
         for (pid, p) in pls.iter_mut() {
             let kind = p.kind();
